@@ -1,5 +1,6 @@
 import Seccomp.Proofs.Lemmas.Reject
 import Seccomp.Proofs.Lemmas.Accept
+import Seccomp.Proofs.Lemmas.GroupTotal
 import Seccomp.Proofs.C01
 /-!
 # C07 — invalid policies are rejected, never mis-compiled; valid ones are accepted
@@ -152,45 +153,36 @@ theorem accepted_names_known (p : Policy) (prog : List Instr)
       obtain ⟨e, he⟩ := defective_rejected ly (some A) p (.group A p g hg (.unknownCondName nc hnc ho))
       rw [h] at he; cases he
 
-theorem assembleGroups_ok_or_asm (hinj : NumInj A) : ∀ (gs : List Group), (∀ g ∈ gs, GroupValid A g) →
-    (∃ outs, assembleGroups A ly gs = .ok outs) ∨ (∃ e, assembleGroups A ly gs = .error (.asm e))
-  | [], _ => .inl ⟨[], rfl⟩
+theorem assembleGroups_ok (hinj : NumInj A) : ∀ (gs : List Group), (∀ g ∈ gs, GroupValid A g) →
+    ∃ outs, assembleGroups A ly gs = .ok outs
+  | [], _ => ⟨[], rfl⟩
   | g :: more, hv => by
     simp only [assembleGroups]
-    have hg : (∃ out, assembleGroup A ly g = .ok out) ∨ (∃ e, assembleGroup A ly g = .error (.asm e)) := by
+    have hg : ∃ out, assembleGroup A ly g = .ok out := by
       unfold assembleGroup
       split
-      · exact .inl ⟨[], rfl⟩
+      · exact ⟨[], rfl⟩
       · obtain ⟨ents, he⟩ := toEntries_ok A hinj g (hv g List.mem_cons_self)
-        simp only [he]
-        cases assemble (groupToks ly ents (enc g.action)) with
-        | error e => exact .inr ⟨e, rfl⟩
-        | ok out => exact .inl ⟨out, rfl⟩
-    rcases hg with ⟨out, ho⟩ | ⟨e, he⟩
-    · simp only [ho]
-      rcases assembleGroups_ok_or_asm hinj more (fun g' hg' => hv g' (List.mem_cons_of_mem _ hg')) with
-        ⟨outs, hos⟩ | ⟨e, hes⟩
-      · exact .inl ⟨out :: outs, by simp [hos]⟩
-      · exact .inr ⟨e, by simp [hes]⟩
-    · exact .inr ⟨e, by simp [he]⟩
+        obtain ⟨out, ho⟩ := assemble_group_total ly ents (enc g.action)
+        exact ⟨out, by simp [he, ho]⟩
+    obtain ⟨out, ho⟩ := hg
+    obtain ⟨outs, hos⟩ := assembleGroups_ok hinj more (fun g' hg' => hv g' (List.mem_cons_of_mem _ hg'))
+    exact ⟨out :: outs, by simp [ho, hos]⟩
 
-/-- **Valid ⇒ accepted, up to the label resolver** (`_partial`).  A policy with a named default action,
-    at least one group, a table in which different names have different numbers (true of every real
-    table, C12), and groups free of the listed defects passes every check of the compiler: the only
-    way `Assemble` can still fail is inside `Program.Assemble` (`CErr.asm`).  What is missing for the
-    full converse: that the resolver never fails on the label programs the group compiler builds (they
-    have forward jumps only, so by `C06.assemble_complete` only "useless jump" remains to be excluded).
-    The correspondence check exercises that part: every generated defect-free policy is accepted by
-    the real compiler and by the model (tens of thousands per thorough run, none rejected). -/
-theorem valid_accepted_partial (hinj : NumInj A) (p : Policy) (hd : p.default ∈ namedActions)
+/-- **Valid ⇒ accepted.**  A policy with a named default action, at least one group, a table in which
+    different names have different numbers (true of every real table: C12), and groups free of the
+    listed defects is accepted: the compiler returns a program.  No size bound is needed for acceptance
+    by the compiler (the 4096 limit is the kernel's, C05), and entries with an empty condition list are
+    accepted too (they never match, C03).  The key step is `assemble_group_total`: the label resolver
+    never fails on the label programs the group compiler builds, whatever their size. -/
+theorem valid_accepted (hinj : NumInj A) (p : Policy) (hd : p.default ∈ namedActions)
     (hg : p.groups ≠ []) (hv : ∀ g ∈ p.groups, GroupValid A g) :
-    (∃ prog, assemblePolicy (some A) ly p = .ok prog) ∨ (∃ e, assemblePolicy (some A) ly p = .error (.asm e)) := by
+    ∃ prog, assemblePolicy (some A) ly p = .ok prog := by
   unfold assemblePolicy
   simp only [List.contains_eq_mem, hd, decide_true, Bool.not_true, Bool.false_eq_true, if_false,
     List.isEmpty_iff, hg]
-  rcases assembleGroups_ok_or_asm A ly hinj p.groups hv with ⟨outs, ho⟩ | ⟨e, he⟩
-  · exact .inl ⟨policyProg A.archI (outs.flatten ++ [Instr.ret (enc p.default)]), by simp [ho]⟩
-  · exact .inr ⟨e, by simp [he]⟩
+  obtain ⟨outs, ho⟩ := assembleGroups_ok A ly hinj p.groups hv
+  exact ⟨policyProg A.archI (outs.flatten ++ [Instr.ret (enc p.default)]), by simp [ho]⟩
 
 /-- a group is free of the listed defects exactly when it is `GroupValid` (the positive form) -/
 theorem valid_of_no_defect (g : Group) (h : ¬ GroupDefect A g) : GroupValid A g := by
@@ -229,6 +221,20 @@ theorem valid_of_no_defect (g : Group) (h : ¬ GroupDefect A g) : GroupValid A g
       | some _ => rfl
       | none => exact absurd (.operation nc hnc c hc ho) h
 
+/-- **Accepted ⇔ free of the listed defects** (for tables with distinct numbers). -/
+theorem accepted_iff_not_defective (hinj : NumInj A) (p : Policy) :
+    (∃ prog, assemblePolicy (some A) ly p = .ok prog) ↔ ¬ Defective (some A) p := by
+  constructor
+  · rintro ⟨prog, hp⟩ hd
+    obtain ⟨e, he⟩ := defective_rejected ly (some A) p hd
+    rw [hp] at he; cases he
+  · intro hnd
+    refine valid_accepted A ly hinj p ?_ ?_ ?_
+    · apply Classical.byContradiction; intro h; exact hnd (.unknownDefault _ _ h)
+    · intro h; exact hnd (.noGroups _ _ h)
+    · intro g hg
+      exact valid_of_no_defect A g (fun hd => hnd (.group A p g hg hd))
+
 /-! ### non-vacuity: each defect is inhabited, and a valid policy is accepted -/
 
 def badOp : Policy :=
@@ -248,7 +254,7 @@ theorem badOp_rejected :
      | .error e => e == .problems [.operation "equal"]
      | .ok _ => false) = true := by decide +kernel
 
-theorem valid_accepted : (assemblePolicy (some C01.tinyArch) (Layout.ofEndian .little) C01.twoGroups).toOption.isSome = true :=
+theorem valid_accepted_example : (assemblePolicy (some C01.tinyArch) (Layout.ofEndian .little) C01.twoGroups).toOption.isSome = true :=
   C01.twoGroups_accepted
 
 end C07
